@@ -2,7 +2,7 @@
 # Runs every seeded change in /verif/seeded against the quick check of its property and
 # records whether the check reports a violation.  /repo must be clean; each patch is
 # applied, checked and reverted (never committed).
-export GOFLAGS=-mod=mod GOPROXY=off GOSUMDB=off GOTOOLCHAIN=local
+export GOFLAGS=-mod=mod GOPROXY=off GOSUMDB=off GOTOOLCHAIN=local NRIVERIF_NOEVIDENCE=1
 cd /verif
 claimed=$(python3 -c "import json; print(' '.join(p['property_id'] for p in json.load(open('MANIFEST.json'))['checks']))" 2>/dev/null)
 for d in seeded/*/; do
